@@ -427,12 +427,18 @@ def edges_guaranteeing(test: ast.AST, atom: Callable[[ast.AST], Optional[bool]])
         return {"F" if e == "T" else "T" for e in inner}
     if isinstance(test, ast.BoolOp):
         out: Set[str] = set()
-        for v in test.values:
-            sub = edges_guaranteeing(v, atom)
+        subs = [edges_guaranteeing(v, atom) for v in test.values]
+        for sub in subs:
             if isinstance(test.op, ast.And) and "T" in sub:
                 out.add("T")  # whole true => every conjunct true
             if isinstance(test.op, ast.Or) and "F" in sub:
                 out.add("F")  # whole false => every disjunct false
+        # whole ``or`` true => some disjunct true: guaranteed when every disjunct's truth guarantees the atom;
+        # dually whole ``and`` false => some conjunct false
+        if isinstance(test.op, ast.Or) and subs and all("T" in sub for sub in subs):
+            out.add("T")
+        if isinstance(test.op, ast.And) and subs and all("F" in sub for sub in subs):
+            out.add("F")
         return out
     return set()
 
